@@ -25,6 +25,7 @@ type c01Spec struct {
 	// replay of one word only
 	Word []string `json:"word,omitempty"`
 	N    int      `json:"n,omitempty"`
+	Long *lwSpec  `json:"long,omitempty"` // a long world (long.go) instead of words
 }
 
 var c01Alpha = []string{"dry-warm", "drizzle", "rain", "dry-hot-windy", "frost", "heavy", "extreme"}
@@ -116,6 +117,10 @@ func init() {
 				}
 				s = append(s, c01Spec{Base: b, Alpha: c01Alpha, D: dd, Irr: i%3 == 1})
 			}
+			for _, lw := range lwSpecs(tier, seed, true) {
+				lw := lw
+				s = append(s, c01Spec{Long: &lw})
+			}
 			return mc.Specs(s)
 		},
 		Run: c01Run,
@@ -142,6 +147,7 @@ type c01Ledger struct {
 	maxSteps                     int
 	lastSteps                    float64
 	rainOf                       func(zeit int) (float64, bool) // rain (cm) of the weather record written for that day
+	exemptDays                   map[int]bool                   // further days on which measured values overwrite the state
 }
 
 func (l *c01Ledger) probe() *hermes.VerifProbe {
@@ -151,7 +157,7 @@ func (l *c01Ledger) probe() *hermes.VerifProbe {
 			l.nsub, l.sumWdt, l.sumRHS, l.sumQN, l.sumQD, l.sumGW = 0, 0, 0, 0, 0, 0
 			l.sick0, l.caps0, l.drai0 = g.SICKER, g.CAPSUM, g.DRAISUM
 			l.dayNontrivial = false
-			l.exempt = zeit <= l.measDay
+			l.exempt = zeit <= l.measDay || l.exemptDays[zeit]
 		},
 		AfterEvatra: func(g *hermes.GlobalVarsMain, zeit int, w *hermes.WaterSharedVars) {
 			// water entering through the surface = rain of that day's record + the irrigation the model reports - actual evaporation
@@ -279,6 +285,16 @@ func c01Run(raw json.RawMessage, c *mc.Ctx) {
 	defer os.RemoveAll(root)
 	if sp.NTo > 0 || sp.N > 0 {
 		c01Sweep(sp, c, root)
+		return
+	}
+	if sp.Long != nil {
+		w := lwBuild(*sp.Long)
+		w.P.Write(root)
+		l := &c01Ledger{c: c, measDay: w.Start, exemptDays: w.Exempt, label: "long world " + w.Name, rainOf: w.rainOf}
+		res := proj.Run(root, w.P.Args(root), l.probe())
+		c.Trace(1)
+		c01Outcome(c, res, l, sp, []string{w.Name}, 0)
+		c.Sample(map[string]interface{}{"long_world": w.Name, "days": w.Days})
 		return
 	}
 	ws := words(sp.Alpha, sp.D)
